@@ -36,7 +36,8 @@ def gen_cases(tier, seed):
             cfgd.update(C.rare_params(rng, allow_unvalidated=True))
         case = work.mk_case(fam, [seed, k], cfgd)
         case["fmt"] = str(rng.choice(["coo", "csr", "csc"]))
-        case["policy"] = str(rng.choice(["const", "memo"]))
+        case["policy"] = str(rng.choice(["const", "memo", "memo", "shared"]))
+        case["dup"] = int(rng.choice([0, 1, 2])) if case["policy"] == "shared" else 0
         case["y0"] = "rand" if rng.random() < 0.5 else "none"
         case["wspan"] = 5
         if fam in ("QP", "NLP") and rng.random() < 0.25:
@@ -45,6 +46,8 @@ def gen_cases(tier, seed):
             case["gopts"] = {"row_force": ["eq"] * 12}
             if rng.random() < 0.5:
                 cfgd["newton"] = "Globalized"
+        if rng.random() < 0.15:
+            case["deriv_check"] = True
         cases.append(case)
     return cases
 
@@ -124,13 +127,18 @@ def one_run(case, policy, freeze=False):
     if case.get("y0") == "rand":
         rng2 = rng_for("y0", *case["gseed"])
         spec.y0 = rng2.normal(size=spec.m)
-    inner = SpecProblem(spec, fmt=case["fmt"], dup=False, policy=policy)
+    inner = SpecProblem(spec, fmt=case["fmt"], dup=case.get("dup", 0) if policy in ("shared", "unshared") else False,
+                        policy=policy)
     snap = SnapshotProblem(inner, freeze=freeze)
     cfgd = dict(case["cfg"])
     weights = None
     if cfgd.get("scaling") == "custom":
         weights = C.scaling_weights(rng_for("w", *case["gseed"]), spec.n, spec.m, span=5)
     params = C.make_params(cfgd, spec, weights=weights)
+    if case.get("deriv_check"):
+        from pygradflow.params import DerivCheck
+
+        params.deriv_check = DerivCheck.CheckAll
     x0 = np.copy(spec.x0)
     y0 = None if spec.y0 is None else np.copy(spec.y0)
     owned = {"x0": x0, "var_lb": inner.given["var_lb"], "var_ub": inner.given["var_ub"]}
@@ -149,7 +157,13 @@ def one_run(case, policy, freeze=False):
     before = {k: np.array(v, copy=True) for k, v in owned.items()}
     out = mon.run_solve(snap, params, x0, y0)
     changed = [k for k, v in owned.items() if not np.array_equal(v, before[k], equal_nan=True)]
-    return {"out": out, "snap": snap, "changed": changed, "spec": spec, "owned": len(owned)}
+    # index arrays of a sparsity structure the user set up once and shares between all matrices handed out
+    nstruct = 0
+    for name, arr, pristine in inner.structure_arrays():
+        nstruct += 1
+        if not np.array_equal(arr, pristine):
+            changed.append("structure:" + name)
+    return {"out": out, "snap": snap, "changed": changed, "spec": spec, "owned": len(owned) + nstruct, "nstruct": nstruct}
 
 
 def run_case(case):
@@ -167,7 +181,8 @@ def run_case(case):
         if len(res["viol"]) < 5:
             res["viol"].append({"what": what, "key": dict(key, kind=kind, **kw)})
 
-    fresh = one_run(case, "fresh")
+    # the counterpart of the shared-structure twin hands out the same storage layout with private index arrays
+    fresh = one_run(case, "unshared" if case["policy"] == "shared" else "fresh")
     if fresh["out"].construct_exc is not None:
         bump("base_unusable")
         return res
@@ -183,6 +198,8 @@ def run_case(case):
     twin = one_run(case, case["policy"])
     bump("twin_runs")
     bump("twin_policy_" + case["policy"])
+    bump("shared_structure_arrays_checked", twin["nstruct"])
+    bump("twin_runs_with_derivative_check", int(bool(case.get("deriv_check"))))
     bump("scaling_" + cn["scaling"])
     bump("fmt_" + case["fmt"])
     bump("cached_objects_handed_out_again", max(0, twin["snap"].handed - len(twin["snap"].snaps)))
@@ -234,12 +251,12 @@ def run_case(case):
 def finalize(agg, tier):
     return {
         "rule": "QP/NLP/degenerate specs (affine rows give constant Jacobians/Hessians; non-zero equality offsets and "
-                "slacks present) x COO/CSR/CSC x random configurations (all scalings) x return policy of the twin "
-                "(one cached constant object / memoised per point); every object returned by a callback is snapshotted at "
+                "slacks present) x COO/CSR/CSC x random configurations (all scalings; 15% with the derivative check switched on) x return policy of the twin "
+                "(one cached constant object / memoised per point / fresh value arrays on one shared set of non-canonically ordered index arrays); every object returned by a callback is snapshotted at "
                 "hand-over; non-trivial = twin pair compared and identical with no snapshot mismatch; distinct by "
                 "(spec seed, policy)",
         "floors": {"twin_runs": 300, "callback_results_snapshotted": 20000, "cached_objects_handed_out_again": 5000,
-                   "caller_owned_arrays_checked": 1500, "scaling_custom": 30, "scaling_GradJac": 30, "fmt_coo": 60,
+                   "caller_owned_arrays_checked": 1500, "twin_policy_shared": 40, "twin_runs_with_derivative_check": 30, "shared_structure_arrays_checked": 100, "scaling_custom": 30, "scaling_GradJac": 30, "fmt_coo": 60,
                    "fmt_csr": 60, "fmt_csc": 60},
         "assumptions": ["value = dense logical value (scipy may reorder indices of a matrix in place without changing it); "
                         "the frozen-buffer run is used only to locate the write for the witness, never as a verdict"],
